@@ -334,9 +334,7 @@ def softmax_backward(grad:np.ndarray, softmax_a:np.ndarray, axis:int) -> np.ndar
     - https://eli.thegreenplace.net/2016/the-softmax-function-and-its-derivative/
     - https://aimatters.wordpress.com/2019/06/17/the-softmax-function-derivative/
     """
-    jacobians = np.stack([np.diag(y) - np.outer(y, y) for y in softmax_a])
-    out_grad = np.expand_dims(grad, axis=axis)
-    a_grad = (out_grad @ jacobians).sum(axis=axis)
+    a_grad = softmax_a * (grad - (grad * softmax_a).sum(axis=axis, keepdims=True))
     return a_grad
 
 
